@@ -47,7 +47,7 @@ def gen_structured(rng: random.Random, tier: str) -> dict:
     counter = [0]
     m = {k: gen_value(rng, rng.choice([1, 2, 3, 3, 4]), counter) for k in rng.sample(KEYS, rng.randint(1, 3))}
     upd = {k: gen_value(rng, 1, counter) for k in rng.sample(KEYS, rng.randint(1, 2))}
-    return {"model": m, "update": upd}
+    return {"model": m, "update": upd, "raise_at": rng.randrange(64)}
 
 
 class Leaf:
@@ -151,6 +151,24 @@ def judge_structured(case) -> Outcome:
         return Leaf(("m", x.ident))
 
     mapped = s._map(f)
+    # a function that takes the context too and fails on one leaf: the map stops there, having shown it each leaf once
+    if fl:
+        stop_at = fl[case.get("raise_at", 0) % len(fl)]
+        seen2 = []
+
+        def g(x, ctx=None):
+            seen2.append(x)
+            if x is stop_at:
+                raise TypeError("refused by the mapped function")
+            return x
+
+        try:
+            s._map(g)
+            out.fail("c19.map_swallowed_error", "a TypeError raised by the mapped function did not propagate")
+        except TypeError:
+            pass
+        if seen2 != fl[: fl.index(stop_at) + 1]:
+            out.fail("c19.map_visits", f"_map with a function failing at leaf {stop_at} visited {seen2}; expected each leaf once up to it: {fl[: fl.index(stop_at) + 1]}")
     if visited != fl:
         out.fail("c19.map_visits", f"_map visited {visited} but _flatten order is {fl}")
     if skeleton(mapped) != skeleton(s):
@@ -550,8 +568,8 @@ def rterm(rng):
 def gen_formula(rng: random.Random, tier: str) -> dict:
     ops = []
     for _ in range(rng.randint(1, 14)):
-        op = rng.choice(["insert", "append", "set", "set", "del", "pop", "extend", "remove", "reverse", "slice_del", "slice_get"])
-        ops.append([op, rng.random(), [rterm(rng) for _ in range(rng.randint(0, 3))] if op == "extend" else rterm(rng)])
+        op = rng.choice(["insert", "append", "set", "set", "del", "pop", "extend", "remove", "reverse", "slice_del", "slice_get", "slice_set", "iadd"])
+        ops.append([op, rng.random(), [rterm(rng) for _ in range(rng.randint(0, 3))] if op in ("extend", "slice_set", "iadd") else rterm(rng)])
     return {"ordering": rng.choice(["none", "degree", "sort", "sort"]),
             "init": [rterm(rng) for _ in range(rng.randint(0, 6))], "ops": ops}
 
@@ -636,6 +654,15 @@ def judge_formula(case) -> Outcome:
                 ts = [mk_term(x) for x in arg]
                 f.extend(ts)
                 model.extend(ts)
+            elif op == "slice_set":  # replacement of a (possibly empty, possibly longer or shorter) slice
+                i, j = sorted((int(r * (n + 1)), int((r * 7919) % 1 * (n + 1))))
+                ts = [mk_term(x) for x in arg]
+                f[i:j] = ts if r < 0.5 else iter(ts)
+                model[i:j] = ts
+            elif op == "iadd":
+                ts = [mk_term(x) for x in arg]
+                f += ts
+                model += ts
             elif op == "remove" and n:
                 t = model[int(r * n)]
                 f.remove(t)
